@@ -85,7 +85,14 @@ def run(ctx):
                 guard = None
                 for i in walk_no_nested(f.node):
                     if isinstance(i, ast.If) and s in i.body: guard = norm(i.test)
-                ok = guard is not None and ('%s.targets.get(%s) is ' % (recv, key)) in guard
+                # the guard is an identity test on the entry currently registered for that target: `targets.get(k) is x`, `targets[k] is x`, or a
+                # local holding the result of targets.get(k) / targets.setdefault(k, ..) / targets[k]
+                cur = {'%s.targets.get(%s)' % (recv, key), '%s.targets[%s]' % (recv, key)}
+                for a_ in walk_no_nested(f.node):
+                    if isinstance(a_, ast.Assign) and len(a_.targets) == 1 and isinstance(a_.targets[0], ast.Name):
+                        v_ = norm(a_.value)
+                        if v_ in cur or v_.startswith('%s.targets.setdefault(%s,' % (recv, key)): cur.add(a_.targets[0].id)
+                ok = guard is not None and any((c_ + ' is ') in guard for c_ in cur)
                 ctx.ob('C03-TARGETS.plain-store-only-replaces-own-entry', f, s, ok,
                        '' if ok else 'plain store %s: an existing (earlier) clause registered for this jump target is overwritten' % norm(s), node=s,
                        expected='%s.targets.setdefault(...) or a store guarded by `%s.targets.get(%s) is <own entry>`' % (recv, recv, key))
